@@ -95,6 +95,9 @@ func (w *World) effLimit() int {
 }
 
 func (w *World) checkTree(what string, ds *dirState, afterWrite bool) bool {
+	if !w.checkForeign(what) {
+		return false
+	}
 	t := WalkRoots(w.Cfg.Storage.RootDirs, false)
 	if len(t.Bad) > 0 {
 		w.R.Failf("%s: %s", what, t.Bad[0])
